@@ -117,6 +117,7 @@ def parseOp (w : List String) : Option Op :=
   | ["vis", x, v] => do pure (.setVisible (← x.toNat?) (← parseBool v))
   | ["left", x, v] => do pure (.setLeft (← x.toNat?) (← v.toInt?))
   | ["top", x, v] => do pure (.setTop (← x.toNat?) (← v.toInt?))
+  | ["attr", x] => do pure (.setAttr (← x.toNat?))
   | "obs" :: rest => (parseObs rest).map .observe
   | _ => none
 
